@@ -5,7 +5,8 @@ import TabulaModel.Model.A1
 Part 1 mirrors the element-based chunker of `rag/document_integration.go`
 (`DocumentChunker.ChunkDocument / chunkPage / textBlockToChunks / create*Chunk /
 pushSection`) as the code is after the C12 fixes (every chunk owns a copy of the section
-path; open sections are closed by heading *level*).
+path; open sections are closed by heading *level*; `resolveRepeatedHeadings` gives a
+heading-like paragraph that repeats a heading text of its page the level of its own entry).
 
 Part 2 mirrors the layout-based chunker of `rag/chunker.go`
 (`Chunker.buildSections / Chunk / chunkSectionTree / chunkSection /
@@ -218,10 +219,44 @@ def runElems {σ} (tr : Tracker σ) (sp : Splitter) (toc : List TOCEntry) (page 
     let r2 := runElems tr sp toc page r1.1 es
     (r2.1, r1.2 ++ r2.2)
 
-/-- `chunkPage`: the element loop, then the final flush -/
+/-- levels of the layout headings of a page whose trimmed text is `key`, in page order
+(`levels[key]` in `resolveRepeatedHeadings`) -/
+def levelsOf (layout : List (Int × Str)) (key : Str) : List Int :=
+  (layout.filter fun h => trim h.2 == key).map (·.1)
+
+/-- `ls[min n (len ls - 1)]` as a total function: the `n`-th level, the last one when there
+are fewer, `d` when there is none. -/
+def nthClamped : List Int → Nat → Int → Int
+  | [], _, d => d
+  | l :: _, 0, _ => l
+  | l :: ls, n + 1, _ => nthClamped ls n l
+
+/-- the loop of `resolveRepeatedHeadings`; `seen` holds the trimmed texts of the headings met
+so far on the page (a multiset kept as a list). A heading-like paragraph that repeats the text
+of an earlier heading of the page becomes the heading with its own level. -/
+def resolveElems (layout : List (Int × Str)) : List Str → List Elem → List Elem
+  | _, [] => []
+  | seen, .heading l t :: es => .heading l t :: resolveElems layout (trim t :: seen) es
+  | seen, .para t :: es =>
+    if levelsOf layout (trim t) = [] then .para t :: resolveElems layout seen es
+    else
+      let n := seen.count (trim t)
+      (if n = 0 then Elem.para t else Elem.heading (nthClamped (levelsOf layout (trim t)) n 1) t)
+        :: resolveElems layout (trim t :: seen) es
+  | seen, .list o items :: es => .list o items :: resolveElems layout seen es
+  | seen, .table rows :: es => .table rows :: resolveElems layout seen es
+  | seen, .image alt :: es => .image alt :: resolveElems layout seen es
+
+/-- `resolveRepeatedHeadings`: the elements of a page as `chunkPage` walks them. -/
+def resolveRepeatedHeadings (pg : Page) : List Elem :=
+  match pg.layout with
+  | none => pg.elems
+  | some hs => resolveElems hs [] pg.elems
+
+/-- `chunkPage`: the element loop over `resolveRepeatedHeadings(page)`, then the final flush -/
 def chunkPage {σ} (tr : Tracker σ) (sp : Splitter) (toc : List TOCEntry) (st : St σ) (pg : Page) :
     St σ × List Chunk :=
-  let r1 := runElems tr sp toc pg.number st pg.elems
+  let r1 := runElems tr sp toc pg.number st (resolveRepeatedHeadings pg)
   let r2 := flush sp pg.number r1.1
   (r2.1, r1.2 ++ r2.2)
 
